@@ -600,6 +600,7 @@ pub fn check_c18(ctx: &Ctx, out: &mut Outcome, q: u32, t: u32) {
     let th = ctx.tier == Tier::Thorough;
     let mut profile = Profile::base(th);
     profile.max_ops = if th { 30 } else { 12 };
+    profile.long_pct = 0;
     // deterministic hashers only: a history that kills the process must do so again when the
     // journaled case is replayed (RandomState would make the crash point wander)
     profile.hashers = vec![HSpec::Fnv(1), HSpec::Fnv(2), HSpec::Ident, HSpec::Zero, HSpec::Fnv(77)];
@@ -622,6 +623,7 @@ pub fn check_c18(ctx: &Ctx, out: &mut Outcome, q: u32, t: u32) {
     // quick tier and found by the thorough one)
     let mut churn = Profile::base(th);
     churn.min_ops = 24;
+    churn.long_pct = 0;
     churn.max_ops = if th { 60 } else { 44 };
     churn.hashers = vec![HSpec::Fnv(1), HSpec::Ident, HSpec::Zero, HSpec::Fnv(77)];
     churn.key_hashers = vec![KhSpec::Ident, KhSpec::Const];
@@ -784,6 +786,10 @@ impl caches::OnEvictCallback for NopCb {
 /// C01: every constructor / builder path yields the configured capacities (exhaustive over a
 /// small grid incl. sizes above 65536 and every order of the hasher setters)
 pub fn check_ctor_caps(ctx: &Ctx, out: &mut Outcome) {
+    check_ctor_caps_for(ctx, out, "C01")
+}
+
+pub fn check_ctor_caps_for(ctx: &Ctx, out: &mut Outcome, prop_id: &'static str) {
     use caches::*;
     let mut n_checked = 0u64;
     let mut bad: Option<String> = None;
@@ -839,7 +845,7 @@ pub fn check_ctor_caps(ctx: &Ctx, out: &mut Outcome) {
     }
     out.coverage.insert("constructor_capacity_contracts_checked".into(), json!(n_checked));
     if let Some(msg) = bad {
-        let v = Violation { prop: "C01", step: 0, msg: format!("a freshly constructed cache does not report its configured capacity: {}", msg), sig: "ctor/-/capacity".into() };
+        let v = Violation { prop: prop_id, step: 0, msg: format!("a freshly constructed cache does not report (and so does not enforce) its configured capacity: {}", msg), sig: "ctor/-/capacity".into() };
         if ctx.known.matches(&ctx.id, &v.sig).is_none() {
             let path = write_replay(&ctx.replay_dir(), &ctx.id, "ctorcaps", json!({"grid": "constructor capacity contracts"}), &v);
             out.violations.push((path, v.msg));
